@@ -2,6 +2,7 @@ package main
 
 import (
 	"fmt"
+	"math"
 	"strconv"
 	"strings"
 	"verifharness/docs"
@@ -471,6 +472,96 @@ func c09(r *mon.Run) {
 				t.Nontrivial("edge:" + strconv.Itoa(i))
 			}
 		}}
+	// contains() over every ordered pair of the deep-equality universe: the element and the probe from the document, as literals,
+	// the element first / last / among others
+	EU := len(eqUniverseTexts)
+	euVals := make([]interface{}, EU)
+	for k, tx := range eqUniverseTexts {
+		euVals[k] = docs.J(tx)
+	}
+	cuw := mon.Workload{Name: "contains-over-the-deep-equality-universe", N: EU * EU * 5, Batch: 2000,
+		Do: func(i int, t *mon.Tally) {
+			form, k := i%5, i/5
+			x, y := k/EU, k%EU
+			doc := map[string]interface{}{"a": euVals[x], "b": euVals[y], "rows": []interface{}{map[string]interface{}{"v": "first"}, map[string]interface{}{"v": euVals[y]}, map[string]interface{}{"v": float64(7)}}, "arr": []interface{}{euVals[y]}, "last": []interface{}{"s", float64(1), nil, euVals[y]}}
+			var tree *gen.Expr
+			switch form {
+			case 0:
+				tree = gen.Func("contains", gen.Field("arr"), gen.Field("a"))
+			case 1:
+				tree = gen.Func("contains", gen.LitJSON("["+eqUniverseTexts[y]+"]"), gen.LitJSON(eqUniverseTexts[x]))
+			case 2:
+				tree = gen.Func("contains", gen.Chain(gen.Field("rows"), gen.StListStar(), gen.StField("v")), gen.Field("a"))
+			case 3:
+				tree = gen.Func("contains", gen.Field("last"), gen.LitJSON(eqUniverseTexts[x]))
+			default:
+				tree = gen.Chain(gen.Field("rows"), gen.StFilter(gen.Func("contains", gen.MultiList(gen.Field("v")), gen.LitJSON(eqUniverseTexts[x]))), gen.StField("v"))
+			}
+			cx := &caseCtx{r, t, "contains-over-the-deep-equality-universe", i}
+			cx.runOne(tree, gen.Spell(tree), doc)
+			t.NontrivialDistinct(1)
+		}}
+	// sort keeps numbers that compare equal in their input order (0 and -0 are the only such pair that can be told apart), for
+	// every length around the usual thresholds of sorting routines; the same for sort_by over plain numbers and for the element
+	// max_by / min_by pick among equal keys
+	zl := []int{2, 3, 4, 5, 7, 8, 11, 12, 13, 14, 16, 17, 20, 24, 31, 32, 33, 50, 64, 65, 100, 128, 129, 257, 600}
+	zsw := mon.Workload{Name: "sort-keeps-zeros-of-either-sign-in-input-order", N: len(zl) * 12 * 3, Batch: 50,
+		Do: func(i int, t *mon.Tally) {
+			L, pat, form := zl[i/36], (i/3)%12, i%3
+			rng := gen.DeriveN(r.Seed, "c09zeros", i/3)
+			arr := make([]interface{}, L)
+			var want []bool // sign bits of the zeros in input order
+			for k := range arr {
+				v := float64(0)
+				switch {
+				case pat < 4 && rng.Intn(2+pat) != 0, pat >= 4 && pat < 8 && k%(pat-2) != 0, pat >= 8 && rng.Intn(3) == 0:
+					v = float64(rng.Intn(9) - 3)
+				}
+				if v == 0 && rng.Bool() {
+					v = math.Copysign(0, -1)
+				}
+				if v == 0 {
+					want = append(want, math.Signbit(v))
+				}
+				arr[k] = v
+			}
+			expr := []string{"sort(@)", "sort_by(@, &@)", "sort(a)"}[form]
+			var doc interface{} = arr
+			if form == 2 {
+				doc = map[string]interface{}{"a": arr}
+			}
+			for q, o := range []mon.Observed{apiSearch(expr, mon.DeepCopy(doc)), apiCompiledSearch(expr, mon.DeepCopy(doc))} {
+				t.Eval()
+				api := []string{"Search", "Compile+Search"}[q]
+				out, ok := o.V.([]interface{})
+				bad := ""
+				if o.Panicked || o.Err != nil || !ok || len(out) != L {
+					bad = "not a list of the same length"
+				} else {
+					var got []bool
+					for k, e := range out {
+						f, isf := e.(float64)
+						if !isf || (k > 0 && f < out[k-1].(float64)) {
+							bad = "not ascending numbers"
+							break
+						}
+						if f == 0 {
+							got = append(got, math.Signbit(f))
+						}
+					}
+					if bad == "" && fmt.Sprint(got) != fmt.Sprint(want) {
+						bad = fmt.Sprintf("the zeros come out with signs %v (true = -0), they went in as %v", got, want)
+					}
+				}
+				if bad != "" {
+					r.Violate(&mon.Violation{Workload: "sort-keeps-zeros-of-either-sign-in-input-order", Index: i, API: api, Expr: expr, Doc: doc,
+						Expected: "the numbers in ascending order, numbers that compare equal (0 and -0) in their input order: the sort is stable", Observed: o.String(), Detail: bad, Class: "sort is not stable for 0 and -0"})
+					return
+				}
+			}
+			t.Count("sorts of lists holding zeros of both signs")
+			t.Nontrivial("zs:" + strconv.Itoa(i))
+		}}
 	// nested in random contexts
 	nr := tierPick(r, 40000, 1000000)
 	ctx := mon.Workload{Name: "calls-in-context", N: nr,
@@ -635,7 +726,7 @@ func c09(r *mon.Run) {
 				t.Count("by-functions over lists with nulls: value expected")
 			}
 		}}
-	r.Exec(exh, typed, every, strw, trw, akw, kindPairsWorkload(r, "C09"), ctx, large, sizedWorkload(r, "sized-arrays", false), reuse, nullw, edgew)
+	r.Exec(exh, typed, every, strw, trw, akw, kindPairsWorkload(r, "C09"), ctx, large, sizedWorkload(r, "sized-arrays", false), reuse, nullw, edgew, cuw, zsw)
 }
 
 // c09ReuseTrees: calls nested in the arguments of other calls (and in expression references, projections,
